@@ -41,6 +41,12 @@ Definition reads_okb (init : list N) (wqs : list (list (list N))) (evs : list ev
   | _ => forallb (ev_completeb init wqs) evs
   end.
 
+(* inputs the generator can emit: 1..8 words, all values of k words.  On anything else
+   (reachable only through the generic shrinker) Pcheck is vacuously true. *)
+Definition wf42 (k : nat) (init : list N) (wqs : list (list (list N))) : bool :=
+  Nat.leb 1 k && Nat.leb k 8 && Nat.eqb (length init) k &&
+  forallb (forallb (fun v => Nat.eqb (length v) k)) wqs.
+
 Definition main42 (input observed : T) : T :=
   match input with
   | L [I 0%Z; k; init; L wqs; nr; sched] =>
@@ -53,7 +59,7 @@ Definition main42 (input observed : T) : T :=
           let pc := match observed with
                     | L [L evs; _; _] =>
                         match mapM T_event evs with
-                        | Some evs => reads_okb init wqs evs
+                        | Some evs => negb (wf42 k init wqs) || reads_okb init wqs evs
                         | None => false
                         end
                     | _ => false
